@@ -239,7 +239,11 @@ def udKV (rec : Mem → List Word → Word → Word → Option UDRes) (path : Li
 
 /-- `transform(path, val, &unmarkTransformer{})` for lists, tuples, maps, objects and
 leaves (sets: not modelled — the harness does not build them here).  `enter` is
-`udEnter` (current code) or `udEnterSeeded`. -/
+`udEnter` (current code) or `udEnterSeeded`.  The second component of the answer is the
+new VALUE (`.pair type payload`): `ListVal` / `TupleVal` / `MapVal` / `ObjectVal` build a new
+type from the types of the new elements — a tuple or object type gets a NEW `ElemTypes`
+slice / `AttrTypes` map — while an empty container, a null, an unknown or a leaf is handed
+back as it is (type shared). -/
 def udw (enter : Mem → List Word → Word → UDRes) : Nat → Mem → List Word → Word → Word → Option UDRes
   | 0, _, _, _, _ => none
   | f + 1, m, path, t, p =>
@@ -250,49 +254,63 @@ def udw (enter : Mem → List Word → Word → UDRes) : Nat → Mem → List Wo
         match sliceElems m1 p1 with
         | none => none
         | some xs =>
-          if xs.isEmpty then some (m1, p1, pv)
+          if xs.isEmpty then some (m1, .pair t p1, pv)
           else
             match udSeq (udw enter f) path m1 0 (xs.map fun x => (e, x)) with
             | none => none
             | some (m2, xs', pvs) =>
-              let (m3, a) := alloc m2 .lib (.array xs')       -- ListVal(elems)
-              some (m3, .slice a 0 xs'.length xs'.length, pv ++ pvs)
-      | .ttuple ts, .slice .. =>
-        match sliceElems m1 p1, sliceElems m1 ts with
+              match splitPairs xs' with
+              | none => none
+              | some (ts, vs) =>
+                let (m3, a) := alloc m2 .lib (.array vs)       -- ListVal(elems)
+                some (m3, .pair (.tlist (elemType ts)) (.slice a 0 vs.length vs.length), pv ++ pvs)
+      | .ttuple tys, .slice .. =>
+        match sliceElems m1 p1, sliceElems m1 tys with
         | some xs, some tys =>
-          if xs.isEmpty then some (m1, p1, pv)
+          if xs.isEmpty then some (m1, .pair t p1, pv)
           else
             match udSeq (udw enter f) path m1 0 (tys.zip xs) with
             | none => none
             | some (m2, xs', pvs) =>
-              let (m3, a) := alloc m2 .lib (.array xs')       -- TupleVal(elems)
-              some (m3, .slice a 0 xs'.length xs'.length, pv ++ pvs)
+              match splitPairs xs' with
+              | none => none
+              | some (ts, vs) =>
+                let (m3, ta) := alloc m2 .lib (.array ts)      -- TupleVal(elems): fresh elemTypes
+                let (m4, va) := alloc m3 .lib (.array vs)      -- …and elemVals
+                some (m4, .pair (.ttuple (.slice ta 0 ts.length ts.length)) (.slice va 0 vs.length vs.length), pv ++ pvs)
         | _, _ => none
       | .tmap e, .map a =>
         match kvsOf m1 a with
         | none => none
         | some kvs =>
-          if kvs.isEmpty then some (m1, p1, pv)
+          if kvs.isEmpty then some (m1, .pair t p1, pv)
           else
             match udKV (udw enter f) path false m1 (kvs.map fun kv => (kv.1, e, kv.2)) with
             | none => none
             | some (m2, kvs', pvs) =>
-              let (m3, a') := alloc m2 .lib (.gomap kvs')     -- MapVal(elems)
-              some (m3, .map a', pv ++ pvs)
+              match splitKV kvs' with
+              | none => none
+              | some (kts, kvv) =>
+                let (m3, a') := alloc m2 .lib (.gomap kvv)     -- MapVal(elems)
+                some (m3, .pair (.tmap (elemType (kts.map (·.2)))) (.map a'), pv ++ pvs)
       | .tobject (.map ta), .map a =>
         match kvsOf m1 a, kvsOf m1 ta with
         | some kvs, some tkvs =>
-          if tkvs.isEmpty then some (m1, p1, pv)
+          if tkvs.isEmpty then some (m1, .pair t p1, pv)
           else
             match udKV (udw enter f) path true m1
                 (tkvs.map fun tkv => (tkv.1, tkv.2, (kvLookup tkv.1 kvs).getD .null)) with
             | none => none
             | some (m2, kvs', pvs) =>
-              let (m3, a') := alloc m2 .lib (.gomap kvs')     -- ObjectVal(newAVs)
-              some (m3, .map a', pv ++ pvs)
+              match splitKV kvs' with
+              | none => none
+              | some (kts, kvv) =>
+                let (m3, ta') := alloc m2 .lib (.gomap kts)    -- ObjectVal(newAVs): fresh attrTypes
+                let (m4, a') := alloc m3 .lib (.gomap kvv)     -- …and attrVals
+                some (m4, .pair (.tobject (.map ta')) (.map a'), pv ++ pvs)
         | _, _ => none
       | .tset _, .set _ => none
-      | _, _ => some (m1, p1, pv)
+      | _, _ => some (m1, .pair t p1, pv)
 
 def udFuel : Nat := 8
 
@@ -383,7 +401,8 @@ def stepXApi (st : St) : XApi → Option St
     | none => none
   | .unmarkDeepWithPaths v =>
     match st.val v with
-    | some (t, p) => (udw udEnter udFuel st.mem [] t p).map fun r => pushPVM ((st.withMem r.1).pushVal t r.2.1) r.2.2
+    | some (t, p) => (udw udEnter udFuel st.mem [] t p).map fun r =>
+        pushPVM { st with mem := r.1, vals := st.vals ++ [r.2.1] } r.2.2
     | none => none
   | .psUnion g h hs =>
     match st.go g, st.go h with
@@ -455,7 +474,8 @@ def unifySeeded (st : St) (g : Nat) : Option St :=
 
 def unmarkDeepWithPathsSeeded (st : St) (v : Nat) : Option St :=
   match st.val v with
-  | some (t, p) => (udw udEnterSeeded udFuel st.mem [] t p).map fun r => pushPVM ((st.withMem r.1).pushVal t r.2.1) r.2.2
+  | some (t, p) => (udw udEnterSeeded udFuel st.mem [] t p).map fun r =>
+      pushPVM { st with mem := r.1, vals := st.vals ++ [r.2.1] } r.2.2
   | none => none
 
 /-- `PathSet.Union` with the seeded shortcut: an empty operand answers the other one -/
